@@ -312,7 +312,7 @@ CHECK = {
     "theorems": ["c16_labels", "c16_label_index", "c16_eq", "c16_hash", "c16_hash_inj", "c16_order_rfc4034", "c16_order_total",
                  "c16_order_eq_consistent", "c16_subdomain", "c16_is_root", "c16_text_accepts", "c16_display",
                  "c16_text_roundtrip", "c16_builder_partial", "c16_builder_finish", "c16_superdomain", "c16_lowercase",
-                 "c16_lowercase_idempotent", "c16_is_wildcard"],
+                 "c16_lowercase_idempotent", "c16_is_wildcard", "c16_builder_push_slice"],
     "allowed_axioms": [],
     "suites": [{
         "name": "names", "impl_bin": "impl_c16", "extract": "Extract/ExC16.v", "driver": "run_c16.ml",
@@ -351,7 +351,7 @@ MANIFEST = {
                    "eq_or_subdomain_of/superdomain/Index/make_ascii_lowercase/is_root/is_wildcard equal one-line list functions; NameBuilder "
                    "try_push/next_label/finish keep the name limits and never panic. Tied to the crate by a differential run (~92k cases quick) "
                    "with an independent executable oracle on every implementation output."),
-    "level_note": ("Partial: try_push_slice/finish_with_suffix have no theorem; the acceptance theorem is for ASCII texts (non-ASCII rejection "
+    "level_note": ("Partial: finish_with_suffix has no theorem; the acceptance theorem is for ASCII texts (non-ASCII rejection "
                    "is differential only); the executable text oracle is not proved equal to the relation. Trusted: Coq kernel, extraction, the "
                    "hand-written model's correspondence (differentially tested), SipHash, the unsafe DST allocation."),
     "technique": "machine-checked proof in Coq + model/implementation correspondence check",
